@@ -12,6 +12,7 @@ import (
 	"strconv"
 	"strings"
 	"sync"
+	"sync/atomic"
 	"time"
 )
 
@@ -277,7 +278,15 @@ func cmdCheck(args []string) {
 	var retry []*Oblig
 	for _, o := range goals {
 		if st := results[o].Status; st != "unsat" && st != "sat" {
-			retry = append(retry, o)
+			isKnown := false
+			for _, kf := range known {
+				if kf.Kind == "finding" && kf.Obligation == o.Name {
+					isKnown = true
+				}
+			}
+			if !isKnown {
+				retry = append(retry, o)
+			}
 		}
 	}
 	if len(retry) > 0 {
@@ -472,6 +481,7 @@ func cmdCheck(args []string) {
 		"by_solver":                      bySolver,
 		"by_solver_seconds":              roundMap(bySolverTime),
 		"solver_time_s":                  round3(solverTime),
+		"proof_cache":                    map[string]int64{"hits": atomic.LoadInt64(&cacheHits), "misses": atomic.LoadInt64(&cacheMisses)},
 		"inferred_invariant_obligations": inferred,
 		"covers":                         map[string]int{"reachable_confirmed": coversOK, "undecided": coversUndecided, "vacuous": coversFailed},
 		"undecided":                      undecided,
